@@ -48,6 +48,10 @@ static int iterConv(MPT_INTERFACE(convertable) *conv, MPT_TYPE(type) type, void 
 	}
 	if (type == MPT_type_toVector('c')) {
 		struct iovec *vec;
+		/* no text at all */
+		if (!it->val) {
+			return 0;
+		}
 		if ((vec = dest)) {
 			vec->iov_base = (void *) it->val;
 			vec->iov_len = strlen(it->val);
